@@ -158,17 +158,33 @@ impl TCheck for C01 {
             1 => 1,
             _ => rng.range(2, 80) as usize,
         };
-        let srcs = [SrcKind::Cursor, SrcKind::File, SrcKind::FileRange, SrcKind::Sim];
+        let srcs = [SrcKind::Cursor, SrcKind::File, SrcKind::FileRange, SrcKind::Sim, SrcKind::FilePeeked, SrcKind::FileRangeToEnd];
         let max_len = *rng.pick(&[40usize, 600, 5000, 70000]);
         let mut contents = gen_contents(&mut rng, n, max_len, &srcs, comp);
         let dedup = rng.chance(1, 3);
+        if dedup {
+            // the deduplicating adder hashes a small content from the reader's current position: a
+            // partly consumed reader is outside what it supports (the plain adder re-positions it)
+            for c in contents.iter_mut() {
+                if c.src == SrcKind::FilePeeked {
+                    c.src = SrcKind::File;
+                }
+            }
+        }
         if dedup && contents.len() >= 2 {
             // duplicates (same bytes, possibly another hint and source kind)
             for _ in 0..rng.range(1, 4) {
                 let from = rng.usize_below(contents.len());
                 let mut d = contents[from].clone();
-                d.hint = *rng.pick(&[Hint::Yes, Hint::No, Hint::Detect]);
                 d.src = *rng.pick(&srcs);
+                if d.src == SrcKind::FilePeeked {
+                    d.src = SrcKind::FileRangeToEnd;
+                }
+                d.hint = if d.src == SrcKind::FilePeeked {
+                    *rng.pick(&[Hint::No, Hint::Detect])
+                } else {
+                    *rng.pick(&[Hint::Yes, Hint::No, Hint::Detect])
+                };
                 let at = rng.usize_below(contents.len() + 1);
                 contents.insert(at, d);
             }
@@ -184,7 +200,7 @@ impl TCheck for C01 {
             knobs.push(("cluster_max_size", *rng.pick(&[256u64, 4096, 65536])));
         }
         let basic = work % 4 == 3 && !dedup;
-        let desc = json!({"comp": comp.name(), "contents": contents.iter().map(|c| format!("{}{}{}", c.bytes.len(), match c.hint {Hint::Yes=>"Y",Hint::No=>"N",Hint::Detect=>"D"}, match c.src {SrcKind::Cursor=>"c",SrcKind::File=>"f",SrcKind::FileRange=>"r",SrcKind::Sim=>"s"})).collect::<Vec<_>>(),
+        let desc = json!({"comp": comp.name(), "contents": contents.iter().map(|c| format!("{}{}{}", c.bytes.len(), match c.hint {Hint::Yes=>"Y",Hint::No=>"N",Hint::Detect=>"D"}, match c.src {SrcKind::Cursor=>"c",SrcKind::File=>"f",SrcKind::FileRange=>"r",SrcKind::Sim=>"s",SrcKind::FilePeeked=>"p",SrcKind::FileRangeToEnd=>"e"})).collect::<Vec<_>>(),
                           "dedup": dedup, "packaging": if basic {"BasicCreator one-file"} else {"content pack file"}, "knobs": knobs.iter().map(|(k,v)| format!("{k}={v}")).collect::<Vec<_>>()});
         if basic {
             let logical = Arc::new(Logical {
